@@ -89,6 +89,8 @@ type Locks struct {
 	inEdges map[*ssa.Function][]*callgraph.Edge
 	// acquisition edges for lock ordering: held -> acquired, with a site
 	order map[[2]lockKey]token.Pos
+	// edges into a function run by (*sync.Once).Do: the Once is held while it runs
+	onceEdge map[*callgraph.Edge]lockKey
 }
 
 // lockOp classifies a call as a mutex operation on a struct field.
@@ -132,7 +134,7 @@ func (a *A) Locks() *Locks {
 	}
 	L := &Locks{a: a, entry: map[*ssa.Function]lockSet{}, at: map[ssa.Instruction]lockSet{}, exit: map[*ssa.Function]lockSet{},
 		delta: map[*ssa.Function]*lockDelta{}, roots: map[*ssa.Function]bool{}, reach: map[*ssa.Function]bool{}, goEntry: map[*ssa.Function]bool{},
-		inEdges: map[*ssa.Function][]*callgraph.Edge{}, order: map[[2]lockKey]token.Pos{}}
+		inEdges: map[*ssa.Function][]*callgraph.Edge{}, order: map[[2]lockKey]token.Pos{}, onceEdge: map[*callgraph.Edge]lockKey{}}
 	a.locks = L
 	cg := a.CG()
 	inMod := map[*ssa.Function]bool{}
@@ -172,16 +174,45 @@ func (a *A) Locks() *Locks {
 			if callee == nil || callee.Pkg == nil || inMod[callee] || !syncHigherOrderPkgs[callee.Pkg.Pkg.Path()] {
 				return
 			}
+			// (*sync.Once).Do(f) runs f while the Once is "held": a second Do on the same Once - from f
+			// itself, through whatever it calls - blocks for ever. Modelled as a lock named after the field.
+			var once *lockKey
+			if callee.Name() == "Do" && callee.Signature.Recv() != nil && isNamedType(callee.Signature.Recv().Type(), "sync", "Once") && len(cc.Args) > 0 {
+				if fa, ok := cc.Args[0].(*ssa.FieldAddr); ok {
+					if st := derefStruct(fa.X.Type()); st != nil {
+						once = &lockKey{ownerName(fa.X.Type()), st.Field(fa.Field).Name()}
+					}
+				}
+			}
 			for _, arg := range cc.Args {
-				mc, ok := arg.(*ssa.MakeClosure)
-				if !ok {
+				var af *ssa.Function
+				switch x := arg.(type) {
+				case *ssa.MakeClosure:
+					af, _ = x.Fn.(*ssa.Function)
+				case *ssa.Function:
+					af = x
+				}
+				if af == nil {
 					continue
 				}
-				af, ok := mc.Fn.(*ssa.Function)
-				if !ok || !inMod[af] || cg.Nodes[f] == nil || cg.Nodes[af] == nil {
+				if !inMod[af] && af.Synthetic != "" && af.Blocks != nil {
+					// a method value (s.shutdown): the wrapper's only call is the method
+					for _, b := range af.Blocks {
+						for _, x := range b.Instrs {
+							if c2 := callCommon(x); c2 != nil && c2.StaticCallee() != nil && inMod[c2.StaticCallee()] {
+								af = c2.StaticCallee()
+							}
+						}
+					}
+				}
+				if !inMod[af] || cg.Nodes[f] == nil || cg.Nodes[af] == nil {
 					continue
 				}
-				L.inEdges[af] = append(L.inEdges[af], &callgraph.Edge{Caller: cg.Nodes[f], Site: in.(ssa.CallInstruction), Callee: cg.Nodes[af]})
+				ed := &callgraph.Edge{Caller: cg.Nodes[f], Site: in.(ssa.CallInstruction), Callee: cg.Nodes[af]}
+				L.inEdges[af] = append(L.inEdges[af], ed)
+				if once != nil {
+					L.onceEdge[ed] = *once
+				}
 			}
 		})
 	}
@@ -214,6 +245,10 @@ func (a *A) Locks() *Locks {
 					s, ok := L.at[ed.Site]
 					if !ok {
 						continue // caller not analysed yet (top)
+					}
+					if k, isOnce := L.onceEdge[ed]; isOnce {
+						s = s.clone()
+						s[k] = 'W'
 					}
 					if !seen {
 						e = s.clone()
